@@ -160,6 +160,7 @@ class ACond:
 class FuncVal:
     def __init__(self, func):
         self.func = func
+        self.closure = None
 
 
 class Builtin:
@@ -297,7 +298,7 @@ class Interp:
         return bool(v)
 
     # -------------------------------------------------------------- calls
-    def call_func(self, func, pos, kw, self_obj=None, node=None):
+    def call_func(self, func, pos, kw, self_obj=None, node=None, closure=None):
         if self.depth >= self.MAX_DEPTH:
             raise Unsupported("inlining deeper than %d at %s" % (self.MAX_DEPTH, func.qual))
         self.ctx.touch(func)
@@ -337,6 +338,9 @@ class Interp:
                 env[p] = self.eval(d, {"__func__": func, "__module__": func.module.name})
         env["__func__"] = func
         env["__module__"] = func.module.name
+        if closure:
+            for k_, v_ in closure.items():
+                env.setdefault(k_, v_)
         self.depth += 1
         try:
             self.exec_block(func.node.body, env)
@@ -442,7 +446,10 @@ class Interp:
             return
         if isinstance(st, ast.FunctionDef):
             f = getattr(st, "_func", None)
-            env[st.name] = FuncVal(f) if f else Opaque(st.name, "obj")
+            fv = FuncVal(f) if f else Opaque(st.name, "obj")
+            if f:
+                fv.closure = env
+            env[st.name] = fv
             return
         if isinstance(st, ast.Try):
             # builders have no try; model: body only, handlers on RaiseEx by name
@@ -895,7 +902,7 @@ class Interp:
             q = fn.func.qual
             if q in self.summaries:
                 return self.summaries[q](self, pos, kw, node)
-            return self.call_func(fn.func, pos, kw, node=node)
+            return self.call_func(fn.func, pos, kw, node=node, closure=fn.closure)
         if isinstance(fn, BoundMethod):
             return self.call_method(fn.base, fn.attr, pos, kw, node, env)
         if isinstance(fn, Builtin):
@@ -1111,7 +1118,10 @@ class Interp:
                 self.list_extend(base, pos[0])
                 return None
             if attr == "index":
-                return base.index(pos[0])
+                try:
+                    return base.index(pos[0])
+                except ValueError:
+                    raise RaiseEx("ValueError", "%r is not in list" % (pos[0],), node)
             if attr == "copy":
                 return list(base)
             if attr == "pop":
@@ -1120,7 +1130,16 @@ class Interp:
                 base.insert(pos[0], pos[1])
                 return None
             if attr == "sort":
-                base.sort()
+                keyf = kw.get("key")
+                rev = bool(kw.get("reverse", False))
+                if keyf is None:
+                    base.sort(reverse=rev)
+                else:
+                    keys = [self.call(keyf, [x], {}, node, env) for x in base]
+                    if not all(isinstance(k, (int, float, str)) for k in keys):
+                        raise Unsupported("sort key is not concrete")
+                    order = sorted(range(len(base)), key=lambda i: keys[i], reverse=rev)
+                    base[:] = [base[i] for i in order]
                 return None
             raise Unsupported("list method %s" % attr)
         if isinstance(base, tuple):
